@@ -92,7 +92,7 @@ type hydroOut struct {
 	feldw, lim, prges, normfk, wred, ad float64
 }
 
-func c15Hydro(sess *hermes.HermesSession, hp *hermes.HFilePath, tex string, ld int, corg, grw float64) hydroOut {
+func c15Hydro(sess *hermes.HermesSession, hp *hermes.HFilePath, tex string, ld int, corg, grw, stein float64) hydroOut {
 	g := hermes.NewGlobalVarsMain()
 	g.Session = sess
 	g.N = 20
@@ -100,6 +100,7 @@ func c15Hydro(sess *hermes.HermesSession, hp *hermes.HFilePath, tex string, ld i
 	g.BART[0] = tex
 	g.LD[0] = ld
 	g.CGEHALT[0] = corg
+	g.STEIN[0] = stein
 	g.GRW = grw
 	var l hermes.InputSharedVars
 	ad, err := hermes.Hydro(1, &g, &l, hp)
@@ -261,8 +262,20 @@ func c15Kernels(args []string) {
 		}
 	}
 	hcase := func(tag, tex string, ld int, corg, grw float64) {
-		o := c15Hydro(sess, &hp, tex, ld, corg, grw)
-		emit(jobj{"k": "hydro", "tag": tag, "tex": tex, "ld": ld, "c": hx(corg), "grw": hx(grw),
+		// stone fraction of the horizon (enters the threshold Hydro computes): none for the class scan, else mixed
+		stein := 0.0
+		if tag != "class" {
+			switch r.intn(4) {
+			case 1:
+				stein = float64(r.intn(60)) / 100 // as the soil file gives it: percent / 100
+			case 2:
+				stein = 0.3
+			case 3:
+				stein = r.between(0, 0.95)
+			}
+		}
+		o := c15Hydro(sess, &hp, tex, ld, corg, grw, stein)
+		emit(jobj{"k": "hydro", "tag": tag, "tex": tex, "ld": ld, "c": hx(corg), "grw": hx(grw), "stein": hx(stein),
 			"feldw": hx(o.feldw), "lim": hx(o.lim), "prges": hx(o.prges), "normfk": hx(o.normfk), "wred": hx(o.wred), "ad": hx(o.ad)})
 		// the property on this point; its class identifies it (the outcome is a function of the class: hydro_classes)
 		cls := fmt.Sprintf("%s:LD%d:corgclass%d:gwclass%d", strings.TrimSpace(tex), ld, c15CorgClass(corg), c15GwClass(grw))
@@ -279,9 +292,9 @@ func c15Kernels(args []string) {
 		if !(o.prges < 1) {
 			oracleFail("table-pore-volume-not-below-one:%s %s pv=%v", cls, at, o.prges)
 		}
-		// the threshold Hydro computes for the top horizon (no stones): LIM < WRED < FELDW
-		if !(o.lim < o.wred && o.wred < o.feldw) {
-			oracleFail("table-wred-not-between:%s %s wp=%v wred=%v fc=%v", cls, at, o.lim, o.wred, o.feldw)
+		// the threshold Hydro computes for the top horizon: WMIN[0] < WRED < W[0], all with the stone factor
+		if !(o.lim*(1-stein) < o.wred && o.wred < o.feldw*(1-stein)) {
+			oracleFail("table-wred-not-between:%s %s stones=%v wmin0=%v wred=%v w0=%v", cls, at, stein, o.lim*(1-stein), o.wred, o.feldw*(1-stein))
 		}
 	}
 	for _, tex := range both {
@@ -473,13 +486,7 @@ func c15TraceLine(work, line string, lineNo int, r *rng, maxCases int) {
 			fail(fmt.Sprintf("run-order:%s:%s", route, strings.TrimSpace(g.BART[h])), "line=%d zeit=%d layer=%d grw=%v wmin=%v w=%v porges=%v", lineNo, zeit, i+1, g.GRW, d.wm[i], d.w[i], d.por[i])
 		}
 		if !(d.wm[0] < d.wred && d.wred < d.w[0]) {
-			if route == "table" && g.STEIN[0] > 0 && d.wm[0] < d.wred && d.wred < g.FELDW[0] {
-				// the threshold is computed from the table values without the stone factor the parameters get
-				fail(fmt.Sprintf("wred-not-below-fc:table-route-stones:%s:stones%v", strings.TrimSpace(g.BART[0]), g.STEIN[0]),
-					"line=%d zeit=%d grw=%v wmin0=%v wred=%v w0=%v feldw0=%v stein0=%v", lineNo, zeit, g.GRW, d.wm[0], d.wred, d.w[0], g.FELDW[0], g.STEIN[0])
-			} else {
-				fail("run-wred-not-between:"+route, "line=%d zeit=%d grw=%v wmin0=%v wred=%v w0=%v stein0=%v", lineNo, zeit, g.GRW, d.wm[0], d.wred, d.w[0], g.STEIN[0])
-			}
+			fail("run-wred-not-between:"+route, "line=%d zeit=%d grw=%v wmin0=%v wred=%v w0=%v stein0=%v", lineNo, zeit, g.GRW, d.wm[0], d.wred, d.w[0], g.STEIN[0])
 		}
 		for l := int(g.GRW+1) + 1; l <= N; l++ {
 			if l >= 1 && d.w[l-1] != d.por[l-1] {
